@@ -58,6 +58,10 @@ func c40NewHTTP(prefix string, hook vgirpc.ServeStartHook) (*vgirpc.HttpServer, 
 	vgirpc.Unary(s, "c40_open", func(_ context.Context, cc *vgirpc.CallContext, p PInt) (int64, error) {
 		return p.X, cc.OpenSession(&c40Sess{N: p.X}, 0)
 	})
+	// what a handler sees of the transport binding while it runs
+	vgirpc.Unary(s, "c40_kind", func(_ context.Context, _ *vgirpc.CallContext, _ PInt) (int64, error) {
+		return int64(c40KindIDOf(s.TransportKind()))*100000 + int64(c40CapsIDOf(s.TransportCapabilities())), nil
+	})
 	vgirpc.Unary(s, "c40_peek", func(_ context.Context, cc *vgirpc.CallContext, p PInt) (int64, error) {
 		if ss, ok := cc.Session().(*c40Sess); ok {
 			ss.N++ // same-session calls are serialised by the entry lock
@@ -475,4 +479,44 @@ func c40RaceHistory() []c40Hop {
 	}
 	h = append(h, c40Hop{Op: "overlap", Codec: 0, Xs: []int64{11, 12, 13}}, c40Hop{Op: "overlap", Codec: 1, Xs: []int64{21, 22, 23}})
 	return h
+}
+
+// c40KindIDOf / c40CapsIDOf: small ids for bindings (0 = the zero value).
+var c40KindTable = func() []string {
+	for _, c := range vgirpc.VerifConstants() {
+		if c.Name == "c40_kinds" {
+			return c.List
+		}
+	}
+	panic("c40_kinds missing")
+}()
+
+func c40KindIDOf(k vgirpc.TransportKind) int {
+	for i, n := range c40KindTable {
+		if n == string(k) {
+			return i
+		}
+	}
+	var v int
+	if _, err := fmt.Sscanf(string(k), "custom-%d", &v); err == nil {
+		return v
+	}
+	return 9999
+}
+
+func c40CapsIDOf(m map[string]bool) int {
+	switch {
+	case len(m) == 0:
+		return 0
+	case len(m) == 1 && m["shm"]:
+		return 1
+	case len(m) == 2 && m["shm"] && m["x"]:
+		return 2
+	}
+	for i := 0; i < len(m); i++ {
+		if !m[fmt.Sprintf("c%d", i)] {
+			return 9999
+		}
+	}
+	return len(m)
 }
